@@ -257,6 +257,11 @@ class Translator:
             try:
                 return getattr(base, node.attr)
             except AttributeError as e:
+                if node.attr.startswith('__') and not node.attr.endswith('__') and isinstance(base, type):
+                    for k in base.__mro__:                    # private name mangling inside a class body
+                        m = '_%s%s' % (k.__name__.lstrip('_'), node.attr)
+                        if hasattr(base, m):
+                            return getattr(base, m)
                 raise Untranslatable(str(e))
         if isinstance(node, ast.Tuple):
             return tuple(self.eval(e, fr, pc) for e in node.elts)
